@@ -78,7 +78,8 @@ HandleModeOK(s, e) ==
 
 \* ---- C01 / C03: published inodes are immutable
 DataMutation(e) == e.e = "sys" /\ e.res = "ok" /\
-    (e.call \in {"write", "copy", "truncate", "chmod"} \/ (e.call = "open" /\ "TRUNC" \in FlagSet(e)))
+    (e.call \in {"write", "copy", "truncate"} \/ (e.call = "open" /\ "TRUNC" \in FlagSet(e)))
+    \* (a chmod that changes nothing is not a re-mode: mode changes are caught on the snapshots below)
 ImmutableStep(s, e, s2) ==
     /\ (DataMutation(e) /\ e.ph # "world" => Target(s.fs, e) \notin DOMAIN s.pubs)
     /\ \A i \in DOMAIN s.pubs : (i \in DOMAIN s.fs.inos /\ i \in DOMAIN s2.fs.inos /\ ~(Has(e, "ph") /\ e.ph = "world")) =>
@@ -88,7 +89,7 @@ ImmutableStep(s, e, s2) ==
 Publishes(cfg, e) == /\ e.e = "sys" /\ e.res = "ok" /\ e.call \in {"link", "rename"} /\ e.ph # "world"
                      /\ ~Outside(e.path2) /\ IsCacheDir(cfg, DirOf(e.path2)) /\ IsKeyName(e.path2.n)
 DurableFirst(cfg, s, e) ==
-    Publishes(cfg, e) /\ Has(cfg, "autosync") /\ cfg.autosync =>
+    Publishes(cfg, e) /\ IsWCacheDir(cfg, DirOf(e.path2)) /\ Has(cfg, "autosync") /\ cfg.autosync =>
         LET i == Lookup(s.fs, e.path) IN
         /\ i \notin s.dirty /\ i \notin s.syncfail
         /\ i \in DOMAIN s.fs.inos => ~Writable(s.fs.inos[i].mode)
@@ -246,8 +247,17 @@ FaultOK(cfg, s, e) ==
     e.e = "ret" /\ e.p \in DOMAIN s.cur /\ ~(Has(e, "world") /\ e.world) /\ FaultedOp(s, e) =>
         /\ ~e.ok \/ EffectPresent(cfg, s, e)
         /\ e.panic => s.faultcall[e.p] = "fsync"
+\* operations that were not hit by the fault (later ones of the same participant, and every other
+\* participant's, e.g. the fresh follow-up actor) succeed
 FollowUpOK(s, e) ==
-    e.e = "ret" /\ e.p \in DOMAIN s.faulted /\ e.opi > s.faulted[e.p] /\ ~(Has(e, "world") /\ e.world) => e.ok /\ ~e.panic
+    e.e = "ret" /\ ~(Has(e, "world") /\ e.world) /\ ~FaultedOp(s, e) => e.ok /\ ~e.panic
+\* sequential runs with eviction out of play: a lookup returns the value of the latest successful set
+ReadsLastSet(s, e) ==
+    e.e = "obs" /\ e.api = "get" /\ e.p \in DOMAIN s.cur /\ Has(s.cur[e.p], "key") /\ s.cur[e.p].key \in DOMAIN s.lastset
+        /\ Get(s.lastok, e.p, FALSE) =>
+        Has(e, "handle") /\ Has(e.handle.c, "val") /\
+            \* ... or of a later set that reported an error: a failed write may or may not have taken effect
+            (e.handle.c.val = s.lastset[s.cur[e.p].key] \/ e.handle.c.val \in Get(s.maybeset, s.cur[e.p].key, {}))
 NoLeak(cfg, s, e) ==
     e.e = "ret" /\ ~(Has(e, "world") /\ e.world) =>
         \A d \in DOMAIN s.fs.ents : IsKismetTemp(cfg, d) =>
